@@ -1,6 +1,7 @@
 package h
 
 import (
+	"github.com/truora/minidyn/interpreter"
 	"errors"
 	"sort"
 
@@ -467,3 +468,9 @@ func (b *V1) Fail(c, mode string) *Resp {
 		return NewResp()
 	})
 }
+
+// Native returns the client's native interpreter (registrations go through it, as in the library's own tests).
+func (b *V1) Native(c string) *interpreter.Native { return b.cs[c].GetNativeInterpreter() }
+
+// ActivateNative switches the client to the native interpreter.
+func (b *V1) ActivateNative(c string) { b.cs[c].ActivateNativeInterpreter() }
